@@ -287,12 +287,13 @@ def enforce_shard(items, p, b):
     ks = {k.name: k for k in c03.kinds(b)}
     for name, prm in items:
         kind = ks[name]
-        for gval, then_top in ((1, False), (0, False), (0, True), (1, True)):
-            case = {"part": "enforce", "kind": name, "param": prm, "p": p, "b": b, "g": gval, "then_top": then_top}
-            msg = enforce_case(kind, prm, p, b, gval, stats, then_top)
-            stats.case(case, True, ("enforce:g%d%s" % (gval, "+top" if then_top else ""),), sample_cap=2)
+        for gval, then_top, shape in ((1, False, None), (0, False, None), (0, True, None), (1, True, None),
+                                      (1, False, "pub-inside"), (0, False, "pub-inside"), (1, False, "pub-outside")):
+            case = {"part": "enforce", "kind": name, "param": prm, "p": p, "b": b, "g": gval, "then_top": then_top, "shape": shape}
+            msg = enforce_case(kind, prm, p, b, gval, stats, then_top, shape)
+            stats.case(case, True, ("enforce:g%d%s%s" % (gval, "+top" if then_top else "", "+" + shape if shape else ""),), sample_cap=2)
             if msg:
-                key = "%s.enforce-g%d%s" % (name, gval, "+top" if then_top else "")
+                key = "%s.enforce-g%d%s%s" % (name, gval, "+top" if then_top else "", "+" + shape if shape else "")
                 if key in known:
                     stats.excluded[key] += 1
                 elif key not in found:
@@ -301,8 +302,10 @@ def enforce_shard(items, p, b):
     return stats
 
 
-def enforce_case(kind, prm, p, b, gval, stats=None, then_top=False):
-    """then_top: the assertion is first made under guarded(gval) and then AGAIN, on the same operand objects,
+def enforce_case(kind, prm, p, b, gval, stats=None, then_top=False, shape=None):
+    """shape: "pub-inside" = the assertion sits in a block with a PUBLIC condition (guarded(1), like _if(1) or a loop with an
+    int bound) nested in the secret guard; "pub-outside" = the secret guard sits in such a block.
+    then_top: the assertion is first made under guarded(gval) and then AGAIN, on the same operand objects,
     at top level: whatever happened under the guard, the top-level assertion must be enforced (S == A)"""
     lim = 1 << b
     if kind.nops == 1:
@@ -323,7 +326,13 @@ def enforce_case(kind, prm, p, b, gval, stats=None, then_top=False):
             if g is None:
                 kind.call(ns, ops, prm)
             else:
-                ns.rt.guarded(g)(lambda: kind.call(ns, ops, prm))()
+                body = lambda: kind.call(ns, ops, prm)
+                if shape == "pub-inside":
+                    body = (lambda inner: lambda: ns.rt.guarded(1)(inner)())(body)
+                region = lambda: ns.rt.guarded(g)(body)()
+                if shape == "pub-outside":
+                    region = (lambda inner: lambda: ns.rt.guarded(1)(inner)())(region)
+                region()
                 if then_top:
                     kind.call(ns, ops, prm)
         except Exception as e:
@@ -343,7 +352,7 @@ def enforce_case(kind, prm, p, b, gval, stats=None, then_top=False):
             trace, opvars = tr, ov
             break
         elif gval == 0 and A and not then_top:
-            return "%s[%s] raised %s: %s under a false guard for operand %r" % (kind.name, prm, type(e).__name__, e, vals)
+            return "%s[%s] raised %s: %s under a false guard%s for operand %r" % (kind.name, prm, type(e).__name__, e, " (" + shape + ")" if shape else "", vals)
     if trace is None:
         return None
     S = set()
@@ -363,10 +372,11 @@ def enforce_case(kind, prm, p, b, gval, stats=None, then_top=False):
         return None
     if gval == 1 and S != A:
         d = sorted(S ^ A, key=lambda v: tuple(abs(x) for x in v))
-        return "%s[%s] under guarded(1): satisfiable operand set differs from the unguarded accepted set at %r (%d values)" % (kind.name, prm, d[0], len(d))
+        return "%s[%s] under guarded(1)%s: satisfiable operand set differs from the unguarded accepted set at %r (%d values)" % (
+            kind.name, prm, " with a public-condition block " + shape.split("-")[1] if shape else "", d[0], len(d))
     if gval == 0 and len(S) != len(window):
         d = sorted(set(window) - S, key=lambda v: tuple(abs(x) for x in v))
-        return "%s[%s] under guarded(0): operand %r makes the circuit unsatisfiable although the guard is false" % (kind.name, prm, d[0])
+        return "%s[%s] under guarded(0)%s: operand %r makes the circuit unsatisfiable although the guard is false" % (kind.name, prm, " (" + shape + ")" if shape else "", d[0])
     return None
 
 
@@ -454,7 +464,7 @@ def replay(case):
         prm = case["param"]
         if isinstance(prm, list):
             prm = tuple(prm)
-        return enforce_case(ks[case["kind"]], prm, case["p"], case["b"], case["g"], None, case.get("then_top", False))
+        return enforce_case(ks[case["kind"]], prm, case["p"], case["b"], case["g"], None, case.get("then_top", False), case.get("shape"))
     m = ir.run_program(case)
     if m.raised is not None:
         return "raised %s: %s at %r" % (type(m.raised[1]).__name__, m.raised[1], m.raised[0])
